@@ -196,6 +196,7 @@ def check(pid, tier, seed):
                 r['scenario'] = scenario_prefix(res['lines'], r['i'])
             reports += res['reports']
             n_events += res['n']
+            devs += sum(1 for r in res['reports'] if r['tag'] == 'DEV')
             idx = res['apps'].get(pid, [])
             apps_idx += [('world-' + driver, i, core.event_key(res['lines'][i])) for i in idx]
             for i in idx[:2]:
